@@ -263,6 +263,10 @@ class BlockSeries:
                     raise IndexError("Cannot evaluate infinite series")
                 if isinstance(order.start, int) and order.start < 0:
                     raise IndexError("Cannot evaluate negative order")
+                if order.stop < 0:
+                    raise IndexError("Cannot evaluate negative order")
+            elif np.min(order, initial=0) < 0:
+                raise IndexError("Cannot evaluate negative order")
 
     def _check_number_perturbations(self, item: tuple[OneItem, ...]):
         """Check that the number of indices is correct.
